@@ -155,7 +155,7 @@ def build_facts(config, thash=None, dhash=None):
     return out
 
 
-def _prune_cache(keep=None, max_files=400):
+def _prune_cache(keep=None, max_files=150):
     try:
         fs = [os.path.join(CACHE, f) for f in os.listdir(CACHE) if f.startswith("facts-")]
         fs.sort(key=lambda p: os.path.getmtime(p))
